@@ -69,7 +69,7 @@ Apply(ss, l) ==
              hit == NG!NmtOK(m) /\ l[3] \in {0, NodeId} IN
          IF hit /\ l[2] \in {129, 130}
          \* (a client transfer cut off by the reset: whether its completion is signalled is not ruled on)
-         THEN R3(a.ev, ResetAll(ss, a.r.n), IF ss.c.busy THEN FREE ELSE a.r.out)
+         THEN R3(a.ev, ResetAll(ss, a.r.n), IF ss.c.busy THEN FREE ELSE a.r.out \o EG!Chg1001(ss.e, [ss.e EXCEPT !.act = {}]))
          ELSE R3(a.ev, SyncMode([ss EXCEPT !.n = a.r.n]), a.r.out)
     [] l[1] \in {"setmode", "bootup"} -> LET a == NG!Apply(ss.n, l) IN R3(a.ev, SyncMode([ss EXCEPT !.n = a.r.n]), a.r.out)
     [] l[1] = "tick" ->      \* every armed action counts down; those due run in this processing step
